@@ -615,14 +615,15 @@ where
             &mut None,
             &rpr_seqs[0],
         );
-        laidx = parser.lr_upto(
-            None,
-            laidx,
-            in_laidx + TRY_PARSE_AT_MOST,
-            &mut pstack,
-            &mut None,
-            &mut None,
-        );
+        let end_laidx = in_laidx + TRY_PARSE_AT_MOST;
+        if laidx < end_laidx {
+            laidx = parser.lr_upto(None, laidx, end_laidx, &mut pstack, &mut None, &mut None);
+        } else {
+            // The repair sequence itself ends at or beyond the window every candidate is
+            // compared over: it has got as far as the window reaches (`lr_upto` only stops *at*
+            // `end_laidx`, so from beyond it the parse would run on to the end of the input).
+            laidx = end_laidx;
+        }
         if laidx >= furthest {
             furthest = laidx;
         }
